@@ -689,9 +689,101 @@ def h_commute(spec):
     E.run_function(spec, "view-lemmas", body)
 
 
-TASKS = [h_coerce_int, h_expected_nodes, h_ingest_dispatch, h_commute, h_finalize_run2, h_ingest_lifecycle2, h_ingest_ser2, h_ingest_rs2]
+class LaunchSpec(Spec):
+    """finalize_launch with finalize_run abstract (its verdict contract is h_finalize_run2): a run's status is one of three"""
+
+    def call_override(self, I, f, args, kwargs, star):
+        fn = f.func if isinstance(f, O.HBound) else f
+        if isinstance(fn, O.HFunc) and fn.node.name == "finalize_run":
+            st = I.st
+            c = st.choose(3, "status of the run")
+            status = ["complete", "partial", "invalid"][c]
+            if c != 0:
+                st.ghost["bad"] = z3.BoolVal(True)
+            return V.obj(z3.Int("RunCompleteness_" + status))
+        return super().call_override(I, f, args, kwargs, star)
+
+    def obj_attr(self, I, v, name):
+        if name == "status":
+            s_ = str(z3.simplify(V.oid(v)))
+            for status in ("complete", "partial", "invalid"):
+                if s_.endswith(status):
+                    return vstr(status)
+        return super().obj_attr(I, v, name)
+
+
+def h_finalize_launch(spec):
+    """launch verdict = the documented table over (start seen, end seen, runs attached, any run not complete); roll-up counts
+    non-negative and 'bad' exactly when a non-complete run was counted; problems name exactly the missing edges"""
+    fn_info(spec, AGG, "TraceAggregator.finalize_launch")
+
+    def body(I):
+        st = I.st
+        me, runs, launches = agg_self(I)
+        lid = in_val(I, "launch_id")
+        attempt = vint(z3.Int("attempt"))
+        key = vtup([lid, attempt])
+        launch, pipes = typed_launch(I, launches, key)
+        known = st.choose(2, "launch known?") == 1
+        if known:
+            st.assume(z3.And(z3.Select(ddom(st.h, launches), key), z3.Select(dval(st.h, launches), key) == launch))
+        else:
+            st.assume(z3.Not(z3.Select(ddom(st.h, launches), key)))
+        st.ghost["bad"] = z3.BoolVal(False)
+        h0 = st.h.copy()
+        n_runs = z3.Select(h0.slen, V.id(pipes))
+        st.assume(n_runs >= 0)
+        spec.loops.clear()
+
+        def inv(c):
+            cnt = c.var("run_status_counts")
+            hh = c.st.h
+            get = lambda k_: V.i(z3.Select(dval(hh, cnt), vstr(k_)))
+            return z3.And(get("complete") >= 0, get("partial") >= 0, get("invalid") >= 0,
+                          (get("partial") + get("invalid") > 0) == c.st.ghost["bad"],
+                          get("complete") + get("partial") + get("invalid") == c.i,
+                          z3.And([z3.Select(ddom(hh, cnt), vstr(k_)) for k_ in ("complete", "partial", "invalid")]),
+                          z3.And([V.is_int(z3.Select(dval(hh, cnt), vstr(k_))) for k_ in ("complete", "partial", "invalid")]))
+        spec.loop(AGG, "TraceAggregator.finalize_launch", 1, LoopSpec(inv, modifies_heap=True, ghost=("bad",),
+                                                                      frame_except=lambda c: [c.var("run_status_counts")]))
+        _, f = E.method_of(I, AGG, "TraceAggregator", "finalize_launch")
+        out = E.execute(I, f, [me, lid, attempt])
+        if out[0] != "return":
+            spec.oblige(I, "finalize_launch/never-raises", z3.BoolVal(False), meta={"exc": repr(out[1])})
+            return
+        h = st.h
+        res = out[1]
+        status = fld(h, res, "status")
+        problems = fld(h, res, "problems")
+        pq = st.list_sq(problems)
+        has = lambda name: z3.Or(z3.And(pq.n >= 1, pq.at(0) == vstr(name)), z3.And(pq.n >= 2, pq.at(1) == vstr(name)))
+        if not known:
+            spec.oblige(I, "finalize_launch/unknown-launch-is-invalid-and-says-so", z3.And(status == vstr("invalid"), pq.n == 1, pq.at(0) == vstr("unknown_launch")))
+            return
+        ss, se = z3.Bool("l_saw_start"), z3.Bool("l_saw_end")
+        some = n_runs > 0
+        bad = st.ghost["bad"]
+        want = z3.If(z3.And(z3.Not(ss), some), vstr("invalid"),
+                     z3.If(z3.And(ss, se), z3.If(bad, vstr("partial"), vstr("complete")),
+                           z3.If(z3.Or(ss, se, some), vstr("partial"), vstr("invalid"))))
+        spec.oblige(I, "finalize_launch/status-is-the-documented-verdict(start,end,runs,any-run-not-complete)", status == want, meta={"witness": "launch-status"})
+        spec.oblige(I, "finalize_launch/complete-exactly-when-both-edges-seen-and-every-run-complete", (status == vstr("complete")) == z3.And(ss, se, z3.Not(bad)))
+        spec.oblige(I, "finalize_launch/a-started-launch-is-never-invalid", z3.Implies(ss, status != vstr("invalid")), meta={"witness": "launch-status"})
+        spec.oblige(I, "finalize_launch/problems-name-exactly-the-missing-edges",
+                    z3.And(has("missing_run_space_start") == z3.Not(ss), has("missing_run_space_end") == z3.Not(se),
+                           pq.n == z3.If(ss, 0, 1) + z3.If(se, 0, 1)))
+        summ = fld(h, res, "summary")
+        spec.oblige(I, "finalize_launch/runs_total-is-the-number-of-attached-runs", z3.Select(dval(h, summ), vstr("runs_total")) == V.int(n_runs))
+        cnt = z3.Select(dval(h, summ), vstr("runs_by_status"))
+        get = lambda k_: V.i(z3.Select(dval(h, cnt), vstr(k_)))
+        spec.oblige(I, "finalize_launch/roll-up-counts-add-up-to-the-attached-runs", get("complete") + get("partial") + get("invalid") == n_runs)
+        spec.oblige(I, "finalize_launch/launch-aggregate-untouched", z3.And([fld(h, launch, fn_) == fld(h0, launch, fn_) for fn_ in LAUNCH_FIELDS]))
+    E.run_function(spec, "TraceAggregator.finalize_launch", body)
+
+
+TASKS = [h_coerce_int, h_expected_nodes, h_ingest_dispatch, h_commute, h_finalize_run2, h_ingest_lifecycle2, h_ingest_ser2, h_ingest_rs2, h_finalize_launch]
 HEAVY = []
-FACTORIES = {"h_finalize_run2": FinalizeSpec, "h_ingest_dispatch": DispatchSpec}
+FACTORIES = {"h_finalize_run2": FinalizeSpec, "h_ingest_dispatch": DispatchSpec, "h_finalize_launch": LaunchSpec}
 
 
 def factory():
